@@ -288,3 +288,82 @@ def run_canv(p: Project, clause: str, floor: int, exceptions: dict, extra_root: 
                 )
     rr.units = {"functions_with_canvas_mutation": n_funcs}
     return rr
+
+
+# --------------------------------------------------------------------------- DEPENDS
+LEAF_CTORS = {"SolidCanvas", "TextCanvas", "BlankCanvas", "apply_text_layout"}
+CHILD_QUERIES = {"render", "rows", "pack", "cols"}
+
+
+def run_depends(p: Project, clause: str, floor: int) -> RuleResult:
+    """A render() that asked a child widget something (render/rows/pack) and then answers with a canvas that
+    does not contain the child's canvas (a freshly made Solid/Text canvas) must declare the dependency with
+    set_depends([...]); otherwise CanvasCache.store finds no child and caches the result - and every
+    ancestor - unconditionally, so later changes of the child never show."""
+    from .defuse import DefUse
+
+    rr = RuleResult("DEPENDS", clause, "a render() result that replaces a child's canvas by a freshly built leaf canvas declares its dependency on the child (set_depends)", floor)
+    for fi in p.functions.values():
+        if fi.name != "render" or fi.cls is None or fi.is_lambda or not p.is_subclass(fi.cls, "Widget"):
+            continue
+        sn = fi.self_name
+        du = DefUse(fi)
+        cfg = du.cfg
+        queries = []
+        for n in cfg.nodes:
+            if n.ast is None:
+                continue
+            for r in ([n.ast] if n.kind not in ("for", "with", "handler") else [n.ast.iter] if n.kind == "for" else []):
+                for x in walk_no_nested(r):
+                    if isinstance(x, ast.Call) and isinstance(x.func, ast.Attribute) and x.func.attr in CHILD_QUERIES:
+                        v = x.func.value
+                        if isinstance(v, ast.Name) and v.id == sn:
+                            continue
+                        if isinstance(v, ast.Call) and isinstance(v.func, ast.Name) and v.func.id == "super":
+                            continue
+                        # a widget-valued receiver: self.<attr> / local bound from self.<attr> or contents
+                        txt = ast.unparse(du.expand(v, n))
+                        if txt.startswith(f"{sn}.") and "canv" not in txt.lower():
+                            queries.append(n)
+        if not queries:
+            continue
+        rr.inst(short(fi), True, {"render": short(fi), "child_queries": len(queries)} if len(rr.samples) < 5 else None)
+        deps = [n for n in cfg.nodes if n.ast is not None and any(isinstance(x, ast.Call) and isinstance(x.func, ast.Attribute) and x.func.attr == "set_depends" for x in walk_no_nested(n.ast) if not isinstance(n.ast, (ast.FunctionDef, ast.ClassDef)))]
+        # leaf definitions reachable from a child query
+        qreach = cfg.reachable(queries)
+        for n in cfg.nodes:
+            a = n.ast
+            leaf_val = None
+            if isinstance(a, ast.Assign) and isinstance(a.value, ast.Call) and callee_name_(a.value) in LEAF_CTORS:
+                leaf_val = a
+            elif n.kind == "return" and isinstance(a.value, ast.Call) and callee_name_(a.value) in LEAF_CTORS:
+                leaf_val = a
+            if leaf_val is None or n not in qreach:
+                continue
+            # paths from this definition to a return of (a wrapper of) it without set_depends
+            name = a.targets[0].id if isinstance(a, ast.Assign) and isinstance(a.targets[0], ast.Name) else None
+            rets = [r for r in cfg.nodes if r.kind == "return"]
+            if n.kind == "return":
+                bad = [n]
+            else:
+                reach = cfg.reachable([n], avoid=deps)
+                bad = []
+                for r in rets:
+                    if r not in reach or r.ast.value is None:
+                        continue
+                    # is the returned value (still) the leaf, possibly wrapped in CompositeCanvas?
+                    chain = ast.unparse(du.expand(r.ast.value, r))
+                    if any(ct + "(" in chain for ct in LEAF_CTORS) and ".render(" not in chain and "CanvasCombine" not in chain and "CanvasJoin" not in chain and "CanvasOverlay" not in chain:
+                        bad.append(r)
+                    elif name is not None:
+                        u = du.reaching(name, r)
+                        if isinstance(r.ast.value, ast.Name) and any(dn is n or (v is not None and isinstance(v, ast.Call) and callee_name_(v) == "CompositeCanvas" and v.args and isinstance(v.args[0], ast.Name) and v.args[0].id == name and n in [d[2] for d in du.reaching(name, dn)]) for v, how, dn in du.reaching(r.ast.value.id, r)):
+                            bad.append(r)
+            for r in bad:
+                rr.add(finding("DEPENDS", fi, r.stmt, f"render() asked a child widget for its size/canvas and returns a freshly built `{callee_name_(leaf_val.value)}` in its place without set_depends([...]): the cache records no dependency, so this widget and all its ancestors keep the stale canvas when the child changes", construct=f"leaf canvas returned without set_depends: {norm(leaf_val, 60)}"))
+    return rr
+
+
+def callee_name_(call):
+    f = call.func
+    return f.id if isinstance(f, ast.Name) else f.attr if isinstance(f, ast.Attribute) else None
